@@ -14,7 +14,11 @@
 extern "C" {
 #include "isa.h"
 typedef struct { uint32_t pc, areg, breg, oreg; int running, exitCode, thrown; int io_calls, ev_kind, ev_to_file, ev_file, ev_byte; } XState;
+#ifndef NO_EXTRACTED
 void X_step(XState *x, uint32_t *mem, int in_byte);
+#else
+static void X_step(XState *x, uint32_t *mem, int in_byte) { (void)x; (void)mem; (void)in_byte; }
+#endif
 }
 
 struct HexVerifAccess {
@@ -141,9 +145,13 @@ int main(int argc, char **argv) {
         X_step(&xs, X.data(), in_byte);
         Outcome oc = realStep(r, pc, a, b, o, in_byte);
         compared++;
+#ifdef NO_EXTRACTED
+        bool ediff = false;
+#else
         bool ediff = xs.pc != oc.pc || xs.areg != oc.areg || xs.breg != oc.breg || xs.oreg != oc.oreg || (xs.running != 0) != oc.running ||
                      (!oc.running && xs.exitCode != oc.exitCode) || (xs.thrown != 0) != oc.thrown || (w.wr && X[w.waddr] != M[w.waddr]) ||
                      ((xs.ev_kind == EV_WRITE) != (oc.out.size() == 1)) || (oc.out.size() == 1 && (uint8_t)oc.out[0] != (uint8_t)xs.ev_byte);
+#endif
         char buf[256];
         snprintf(buf, sizeof buf, "{\"pc\": %u, \"areg\": %u, \"breg\": %u, \"oreg\": %u, \"in\": %d, \"mem\": [%u, %u, 1, %u, %u, %u, %u, %u, %u, %u]}", pc, a, b, o, in_byte,
                  pc >> 2, word, sp, opr < ISA_MEM_WORDS ? opr : 1, opr < ISA_MEM_WORDS ? M[opr] : sp, sp + 2 < ISA_MEM_WORDS ? sp + 2 : 1, sp + 2 < ISA_MEM_WORDS ? M[sp + 2] : sp,
